@@ -105,40 +105,6 @@ Proof.
   destruct a, b. unfold tkey_eqb. cbn. rewrite andb_true_iff, !N.eqb_eq. split; [intros [-> ->]; reflexivity|intros [= -> ->]; auto].
 Qed.
 
-(* Deduplicate of templated policies keeps, for every key, exactly its first occurrence *)
-Lemma dedup_tps_from_sub x l : forall seen, In x (dedup_tps_from seen l) -> In x l /\ ~ In (tp_key x) seen.
-Proof.
-  induction l as [|y l IH]; intros seen; cbn [dedup_tps_from]; [intros []|].
-  destruct (existsb (tkey_eqb (tp_key y)) seen) eqn:E.
-  - intros H. destruct (IH _ H). split; [right|]; assumption.
-  - intros [->|H].
-    + split; [left; reflexivity|]. intros Hin.
-      assert (existsb (tkey_eqb (tp_key x)) seen = true) by (apply existsb_exists; exists (tp_key x); split; [exact Hin|apply tkey_eqb_eq; reflexivity]).
-      congruence.
-    + destruct (IH _ H) as [H1 H2]. split; [right; exact H1|]. intros Hin. apply H2. right; exact Hin.
-Qed.
-
-Lemma dedup_tps_from_key y l : forall seen, In y l -> ~ In (tp_key y) seen ->
-  exists x, In x (dedup_tps_from seen l) /\ tp_key x = tp_key y.
-Proof.
-  induction l as [|z l IH]; intros seen Hin Hn; [destruct Hin|]. cbn [dedup_tps_from].
-  destruct (existsb (tkey_eqb (tp_key z)) seen) eqn:E.
-  - destruct Hin as [->|Hin]; [|apply IH; assumption].
-    apply existsb_exists in E as (k & Hk & Ek). apply tkey_eqb_eq in Ek. subst k. contradiction.
-  - destruct (tkey_eqb (tp_key z) (tp_key y)) eqn:Ezy.
-    + apply tkey_eqb_eq in Ezy. exists z. split; [left; reflexivity|exact Ezy].
-    + destruct Hin as [->|Hin]; [rewrite (proj2 (tkey_eqb_eq _ _) eq_refl) in Ezy; discriminate|].
-      destruct (IH (tp_key z :: seen) Hin) as (x & Hx & Hk).
-      * intros [H|H]; [|contradiction]. rewrite H, (proj2 (tkey_eqb_eq _ _) eq_refl) in Ezy. discriminate.
-      * exists x. split; [right; exact Hx|exact Hk].
-Qed.
-
-Lemma dedup_tps_sub x l : In x (dedup_tps l) -> In x l.
-Proof. intros H. apply (dedup_tps_from_sub x l [] H). Qed.
-
-Lemma dedup_tps_key y l : In y l -> exists x, In x (dedup_tps l) /\ tp_key x = tp_key y.
-Proof. intros H. apply (dedup_tps_from_key y l [] H). intros []. Qed.
-
 (* ---- Deduplicate of service identities, seen through lookups ---- *)
 
 Definition occ (n : N) (l : list sident) : list sident := filter (fun s => N.eqb (si_name s) n) l.
@@ -207,7 +173,7 @@ Proof.
       (flat_map (fun id => match alookup N.eqb id (w_pols w) with Some wp => [(wp_entry wp, wp_dcs wp)] | None => [] end) pids
        ++ (flat_map (fun e => match alookup N.eqb (fst e) (w_synth_svc w) with Some p => [(p, snd e)] | None => [] end) sis
            ++ flat_map (fun n => match alookup N.eqb (ni_name n) (w_synth_node w) with Some p => [(p, [ni_dc n])] | None => [] end) nis
-           ++ flat_map (fun x => match alookup tkey_eqb (tp_key x) (w_synth_tp w) with Some p => [(p, tp_dcs x)] | None => [] end) tps)))) ->
+           ++ flat_map (fun e => match alookup tkey_eqb (fst e) (w_synth_tp w) with Some p => [(p, snd e)] | None => [] end) tps)))) ->
     in_world w e).
   { intros pids sis nis tps H. apply in_map_iff in H as ([e' d] & <- & H). apply filter_In in H as [H _].
     apply in_app_or in H as [H|H]; [|apply in_app_or in H as [H|H]; [|apply in_app_or in H as [H|H]]];
@@ -218,8 +184,8 @@ Proof.
       right; left. exists (fst x). apply (alookup_In _ N.eqb_eq), L.
     - destruct (alookup N.eqb (ni_name x) (w_synth_node w)) as [p|] eqn:L; [|destruct H]. destruct H as [[= <- <-]|[]].
       right; right; left. exists (ni_name x). apply (alookup_In _ N.eqb_eq), L.
-    - destruct (alookup tkey_eqb (tp_key x) (w_synth_tp w)) as [p|] eqn:L; [|destruct H]. destruct H as [[= <- <-]|[]].
-      right; right; right. exists (tp_key x). apply (alookup_In _ tkey_eqb_eq), L. }
+    - destruct (alookup tkey_eqb (fst x) (w_synth_tp w)) as [p|] eqn:L; [|destruct H]. destruct H as [[= <- <-]|[]].
+      right; right; right. exists (fst x). apply (alookup_In _ tkey_eqb_eq), L. }
   destruct (tk_pols t), (tk_roles t), (tk_sis t), (tk_nis t), (tk_tps t); try (destruct He; fail); eapply G; exact He.
 Qed.
 
@@ -255,12 +221,6 @@ Definition union_policies (w : world) (t : wtoken) : list policy :=
                         then olist' (option_map e_pol (alookup tkey_eqb (tp_key x) (w_synth_tp w))) else [])
               (tk_tps t ++ flat_map ro_tps roles).
 
-(* the templated policies the token holds or inherits for one (template, variables) agree on
-   whether they are valid in this datacenter *)
-Definition tps_uniform (w : world) (t : wtoken) : Prop :=
-  forall x y, In x (tk_tps t ++ flat_map ro_tps (roles_of w t)) -> In y (tk_tps t ++ flat_map ro_tps (roles_of w t)) ->
-    tp_key x = tp_key y -> in_scope (w_dc w) (tp_dcs x) = in_scope (w_dc w) (tp_dcs y).
-
 Lemma occ_In s n l : In s (occ n l) <-> In s l /\ si_name s = n.
 Proof. unfold occ. rewrite filter_In, N.eqb_eq. reflexivity. Qed.
 
@@ -295,21 +255,100 @@ Proof.
   destruct (occ n l) as [|s0 rest] eqn:Eo; [discriminate|]. exists s0. apply occ_In. rewrite Eo. left; reflexivity.
 Qed.
 
+(* ---- Deduplicate of templated policies, seen through lookups ---- *)
+
+Definition tocc (k : tkey) (l : list tpol) : list tpol := filter (fun x => tkey_eqb (tp_key x) k) l.
+
+Definition tstep (o : option (list N)) (x : tpol) : option (list N) :=
+  Some (match o with None => tp_dcs x | Some kept => tmerge (tp_dcs x) kept end).
+
+Lemma tkey_eqb_sym a b : tkey_eqb a b = tkey_eqb b a.
+Proof. apply bool_eq_iff. rewrite !tkey_eqb_eq. split; congruence. Qed.
+
+Lemma tps_step_lookup m x k :
+  alookup tkey_eqb k (tps_step m x)
+  = if tkey_eqb k (tp_key x) then tstep (alookup tkey_eqb (tp_key x) m) x else alookup tkey_eqb k m.
+Proof.
+  unfold tps_step, tstep. destruct (alookup tkey_eqb (tp_key x) m); rewrite (alookup_aset _ tkey_eqb_eq); reflexivity.
+Qed.
+
+Lemma tps_fold_nodup l : forall m, NoDup (map fst m) -> NoDup (map fst (fold_left tps_step l m)).
+Proof.
+  induction l as [|x l IH]; intros m H; cbn [fold_left]; [exact H|]. apply IH. unfold tps_step.
+  destruct (alookup tkey_eqb (tp_key x) m); apply (aset_nodup _ tkey_eqb_eq), H.
+Qed.
+
+Lemma tps_fold_lookup l : forall m k,
+  alookup tkey_eqb k (fold_left tps_step l m) = fold_left tstep (tocc k l) (alookup tkey_eqb k m).
+Proof.
+  induction l as [|x l IH]; intros m k; cbn [fold_left tocc filter]; [reflexivity|].
+  rewrite IH, tps_step_lookup. fold (tocc k l). rewrite (tkey_eqb_sym (tp_key x) k).
+  destruct (tkey_eqb k (tp_key x)) eqn:E; [|reflexivity]. apply tkey_eqb_eq in E; subst k. reflexivity.
+Qed.
+
+Lemma tmerge_scope dc d kept : in_scope dc (tmerge d kept) = in_scope dc kept || in_scope dc d.
+Proof.
+  unfold tmerge. destruct kept as [|a kept]; [reflexivity|]. destruct d as [|x d]; [cbn [is_nil]; rewrite orb_true_r; reflexivity|].
+  cbn [is_nil]. apply bool_eq_iff. rewrite orb_true_iff, !in_scope_spec, merge_sorted_nil, merge_sorted_In, !sort_n_In, !sort_n_nil.
+  split.
+  - intros [[H _]|[H|H]]; [discriminate|left; right; exact H|right; right; exact H].
+  - intros [[H|H]|[H|H]]; try discriminate; right; auto.
+Qed.
+
+Lemma tstep_fold_scope dc l : forall acc,
+  exists r, fold_left tstep l (Some acc) = Some r
+    /\ in_scope dc r = in_scope dc acc || existsb (fun x => in_scope dc (tp_dcs x)) l.
+Proof.
+  induction l as [|x l IH]; intros acc; cbn [fold_left existsb].
+  - exists acc. rewrite orb_false_r. auto.
+  - unfold tstep at 2. destruct (IH (tmerge (tp_dcs x) acc)) as (r & E & Hr). exists r. split; [exact E|].
+    rewrite Hr, tmerge_scope, orb_assoc. reflexivity.
+Qed.
+
+Lemma tocc_In x k l : In x (tocc k l) <-> In x l /\ tp_key x = k.
+Proof. unfold tocc. rewrite filter_In, tkey_eqb_eq. reflexivity. Qed.
+
+(* a merged templated policy is valid here iff one of the merged ones is *)
+Lemma dedup_tps_scope dc l k dcs :
+  alookup tkey_eqb k (dedup_tps l) = Some dcs ->
+  (in_scope dc dcs = true <-> exists x, In x l /\ tp_key x = k /\ in_scope dc (tp_dcs x) = true).
+Proof.
+  intros L. unfold dedup_tps in L. rewrite tps_fold_lookup in L. cbn [alookup] in L.
+  destruct (tocc k l) as [|x0 rest] eqn:Eo; [discriminate|]. cbn [fold_left] in L. unfold tstep at 2 in L.
+  destruct (tstep_fold_scope dc rest (tp_dcs x0)) as (r & E & Hr). rewrite E in L. injection L as <-.
+  rewrite Hr, orb_true_iff, existsb_exists.
+  assert (Hall : forall x, In x (x0 :: rest) <-> In x l /\ tp_key x = k) by (intros x; rewrite <- Eo; apply tocc_In).
+  split.
+  - intros [H|(x & Hx & H)].
+    + exists x0. destruct (proj1 (Hall x0) (or_introl eq_refl)). auto.
+    + exists x. destruct (proj1 (Hall x) (or_intror Hx)). auto.
+  - intros (x & Hx & Hk & H). destruct (proj2 (Hall x) (conj Hx Hk)) as [<-|Hr']; [left; exact H|right; eauto].
+Qed.
+
+Lemma dedup_tps_lookup_some l x : In x l -> exists dcs, alookup tkey_eqb (tp_key x) (dedup_tps l) = Some dcs.
+Proof.
+  intros H. unfold dedup_tps. rewrite tps_fold_lookup. cbn [alookup].
+  assert (Ho : In x (tocc (tp_key x) l)) by (apply tocc_In; auto).
+  destruct (tocc (tp_key x) l) as [|x0 rest]; [destruct Ho|]. cbn [fold_left]. unfold tstep at 2.
+  destruct (tstep_fold_scope 0%N rest (tp_dcs x0)) as (r & E & _). eauto.
+Qed.
+
 (* the token's policies are, as a set, the documented union *)
-Theorem policies_are_union w t : tps_uniform w t ->
+Theorem policies_are_union w t :
   sameset (map e_pol (policies_for_identity w t)) (union_policies w t).
 Proof.
-  intros Hu p. unfold policies_for_identity, union_policies.
+  intros p. unfold policies_for_identity, union_policies.
   set (roles := roles_of w t). set (sis := tk_sis t ++ flat_map ro_sis roles).
   set (nis := tk_nis t ++ flat_map ro_nis roles). set (pids := tk_pols t ++ flat_map ro_pols roles).
   set (tps := tk_tps t ++ flat_map ro_tps roles).
   assert (Hnd : NoDup (map fst (dedup_sis sis))) by (apply dedup_fold_nodup; constructor).
+  assert (Hndt : NoDup (map fst (dedup_tps tps))) by (apply tps_fold_nodup; constructor).
   assert (G :
     In p (map e_pol (map fst (filter (fun pd => in_scope (w_dc w) (snd pd))
       (flat_map (fun id => match alookup N.eqb id (w_pols w) with Some wp => [(wp_entry wp, wp_dcs wp)] | None => [] end) (dedupe_ids pids)
        ++ (flat_map (fun e => match alookup N.eqb (fst e) (w_synth_svc w) with Some p => [(p, snd e)] | None => [] end) (dedup_sis sis)
            ++ flat_map (fun n => match alookup N.eqb (ni_name n) (w_synth_node w) with Some p => [(p, [ni_dc n])] | None => [] end) (dedup_nis nis)
-           ++ flat_map (fun x => match alookup tkey_eqb (tp_key x) (w_synth_tp w) with Some p => [(p, tp_dcs x)] | None => [] end) (dedup_tps tps))))))
+           ++ flat_map (fun e => match alookup tkey_eqb (fst e) (w_synth_tp w) with Some p => [(p, snd e)] | None => [] end) (dedup_tps tps))))))
     <-> In p (flat_map (fun id => match alookup N.eqb id (w_pols w) with
                       | Some wp => if in_scope (w_dc w) (wp_dcs wp) then [e_pol (wp_entry wp)] else []
                       | None => [] end) pids
@@ -333,9 +372,11 @@ Proof.
       + right; right; left. apply in_flat_map. exists x. split; [apply dedup_nis_In, Hx|].
         destruct (alookup N.eqb (ni_name x) (w_synth_node w)) as [q|]; [|destruct H]. destruct H as [[= <- <-]|[]].
         cbn [in_scope existsb] in Hsc. rewrite orb_false_r in Hsc. rewrite Hsc. left; reflexivity.
-      + right; right; right. apply in_flat_map. exists x. split; [apply dedup_tps_sub, Hx|].
-        destruct (alookup tkey_eqb (tp_key x) (w_synth_tp w)) as [q|]; [|destruct H]. destruct H as [[= <- <-]|[]].
-        rewrite Hsc. left; reflexivity.
+      + right; right; right. destruct x as [k dcs]. cbn [fst snd] in H.
+        destruct (alookup tkey_eqb k (w_synth_tp w)) as [q|] eqn:Lq; [|destruct H]. destruct H as [[= <- <-]|[]].
+        assert (L : alookup tkey_eqb k (dedup_tps tps) = Some dcs) by (apply (In_alookup _ tkey_eqb_eq); assumption).
+        destruct (proj1 (dedup_tps_scope (w_dc w) tps k dcs L) Hsc) as (x & Hx' & Hk & Hss).
+        apply in_flat_map. exists x. split; [exact Hx'|]. rewrite Hss, Hk, Lq. left; reflexivity.
     - intros [H|[H|[H|H]]]; apply in_flat_map in H as (x & Hx & H).
       + destruct (alookup N.eqb x (w_pols w)) as [wp|] eqn:L; [|destruct H].
         destruct (in_scope (w_dc w) (wp_dcs wp)) eqn:Hsc; [|destruct H]. destruct H as [<-|[]].
@@ -356,11 +397,11 @@ Proof.
         * cbn. rewrite Hsc. reflexivity.
       + destruct (in_scope (w_dc w) (tp_dcs x)) eqn:Hsc; [|destruct H].
         destruct (alookup tkey_eqb (tp_key x) (w_synth_tp w)) as [q|] eqn:Lq; [|destruct H]. destruct H as [<-|[]].
-        destruct (dedup_tps_key x tps Hx) as (x' & Hx' & Hk).
-        exists (q, tp_dcs x'). split; [reflexivity|]. apply filter_In. split.
-        * apply in_or_app. right. apply in_or_app. right. apply in_or_app. right. apply in_flat_map. exists x'.
-          split; [exact Hx'|]. rewrite Hk, Lq. left; reflexivity.
-        * cbn [snd]. rewrite (Hu x' x (dedup_tps_sub _ _ Hx') Hx Hk). exact Hsc. }
+        destruct (dedup_tps_lookup_some tps x Hx) as [dcs L].
+        exists (q, dcs). split; [reflexivity|]. apply filter_In. split.
+        * apply in_or_app. right. apply in_or_app. right. apply in_or_app. right. apply in_flat_map. exists (tp_key x, dcs).
+          split; [apply (alookup_In _ tkey_eqb_eq), L|]. cbn [fst snd]. rewrite Lq. left; reflexivity.
+        * cbn [snd]. apply (dedup_tps_scope (w_dc w) tps (tp_key x) dcs L). eauto. }
   destruct (tk_pols t) eqn:E1, (tk_roles t) eqn:E2, (tk_sis t) eqn:E3, (tk_nis t) eqn:E4, (tk_tps t) eqn:E5; try exact G.
   (* nothing held and no roles: both sides are empty *)
   subst roles sis nis pids tps. unfold roles_of. rewrite E2. cbn. reflexivity.
@@ -368,21 +409,20 @@ Qed.
 
 (* hence the documented rule applied to the token's resolved policies is the documented rule
    applied to the union *)
-Theorem identity_union_spec w t m : tps_uniform w t ->
+Theorem identity_union_spec w t m :
   spec_decide (map e_pol (policies_for_identity w t)) m = spec_decide (union_policies w t) m.
-Proof. intros H. apply spec_decide_sameset, policies_are_union, H. Qed.
+Proof. apply spec_decide_sameset, policies_are_union. Qed.
 
 (* end to end: whatever was resolved before, the caller sees the documented rule applied to the
    union of what the token holds and inherits *)
 Theorem token_semantics w c t s m :
   versioned (in_world w) -> reach (in_world w) c ->
   forallb (fun e => e_ok e && validate (e_pol e)) (policies_for_identity w t) = true ->
-  tps_uniform w t ->
   token_decide w c t s m = Some (spec_chain (union_policies w t) s m).
 Proof.
-  intros V R Hok Hu. unfold token_decide.
+  intros V R Hok. unfold token_decide.
   rewrite (semantics_through_caches (in_world w) c _ s m V R (policies_for_identity_in_world w t) Hok).
-  unfold spec_chain. rewrite (identity_union_spec w t m Hu). reflexivity.
+  unfold spec_chain. rewrite (identity_union_spec w t m). reflexivity.
 Qed.
 
 (* ---------------------------------------------------------------- order of links, several worlds *)
@@ -412,22 +452,16 @@ Proof.
   reflexivity.
 Qed.
 
-Lemma tps_uniform_equiv w t t' : token_equiv t t' -> tps_uniform w t -> tps_uniform w t'.
-Proof.
-  intros (P1 & P2 & P3 & P4 & P5) H x y Hx Hy. assert (S := held_sameset w t t' tk_tps ro_tps P5 P2).
-  apply H; apply S; assumption.
-Qed.
-
 (* the order in which a token lists its policy links, role links and identities does not matter *)
 Theorem token_order_independent w c c' t t' s m :
   versioned (in_world w) -> reach (in_world w) c -> reach (in_world w) c' ->
-  token_equiv t t' -> tps_uniform w t ->
+  token_equiv t t' ->
   forallb (fun e => e_ok e && validate (e_pol e)) (policies_for_identity w t) = true ->
   forallb (fun e => e_ok e && validate (e_pol e)) (policies_for_identity w t') = true ->
   token_decide w c t s m = token_decide w c' t' s m.
 Proof.
-  intros V R R' E U H H'.
-  rewrite (token_semantics w c t s m V R H U), (token_semantics w c' t' s m V R' H' (tps_uniform_equiv w t t' E U)).
+  intros V R R' E H H'.
+  rewrite (token_semantics w c t s m V R H), (token_semantics w c' t' s m V R' H').
   unfold spec_chain. rewrite (spec_decide_sameset _ _ m (union_policies_equiv w t t' E)). reflexivity.
 Qed.
 
